@@ -47,6 +47,7 @@ Print Assumptions pack_total.
    payload, every non-empty recipient list and every enc the packer admits, with the sender key in the
    sender's KMS, is REFUTED by the faithful model (known findings, DESIGN 11 #22) ... *)
 Definition admitted (c : cfg) : bool :=
+  match style_of c with RawKeyHash => false | _ => true end &&
   match packer_of c, kt_of c with
   | (JweAuth | JweAnon), Ed25519 => false
   | JweAuth, _ => auth_enc_ok (enc_of c)
@@ -70,7 +71,19 @@ Proof.
 Qed.
 Print Assumptions pack_always_succeeds_refuted.
 
-(* ... and holds outside exactly those two classes. *)
+(* third pack-side rejection (known finding pack-rejects-raw-key-containing-hash): raw legacy keys handed to the
+   packager, one of them with a '#' byte after position 0 *)
+Theorem pack_raw_key_with_hash_refuted :
+  exists c spar payload sender rcpts rn,
+    packer_of c = LegAuth /\ kt_of c = Ed25519 /\ rcpts <> [] /\ mem sender spar = true /\
+    pack c spar payload sender rcpts rn = Err ERejected.
+Proof.
+  exists (mkcfg LegAuth Ed25519 XC20P RawKeyHash), [1], 5, 1, [2], (mkrnd 7 8 9).
+  repeat split; try reflexivity; discriminate.
+Qed.
+Print Assumptions pack_raw_key_with_hash_refuted.
+
+(* ... and holds outside exactly those three classes. *)
 Theorem pack_always_succeeds_partial : forall c spar payload sender rcpts rn,
   admitted c = true -> rcpts <> [] -> (is_auth (packer_of c) = true -> mem sender spar = true) ->
   negb ((payload =? 0) && Nat.ltb 1 (length rcpts) && stream_enc (enc_of c) && negb (is_legacy (packer_of c))) = true ->
@@ -82,7 +95,7 @@ Proof.
   - exfalso. assert (Hrej : rejects c spar payload sender rcpts = true) by (apply (proj1 (pack_total_lemma c spar payload sender rcpts rn)); exists e; exact Hp).
     clear Hp. unfold rejects in Hrej. destruct rcpts as [|r rs]; [congruence|].
     unfold admitted in Ha.
-    destruct (packer_of c) eqn:P, (kt_of c) eqn:K, (enc_of c) eqn:E; cbn in *; try discriminate;
+    destruct (style_of c) eqn:S, (packer_of c) eqn:P, (kt_of c) eqn:K, (enc_of c) eqn:E; cbn in *; try discriminate;
       try (rewrite (Hs eq_refl) in Hrej); cbn in *;
       repeat match goal with
       | H : context [payload =? 0] |- _ => destruct (payload =? 0)
